@@ -309,3 +309,49 @@ _run_11b = run
 def run(ctx, rep):
     _run_11b(ctx, rep)
     run_pass_through(ctx, rep)
+
+
+# ---------------------------------------------------------------------------------------------
+# R11.6  the FS-information sector is rewritten at unmount (flush_fs_info, 512 bytes at bpb.fs_info_sector): that region is the
+#        volume's FS-information sector only because its signatures were verified when it was read at mount - so the value
+#        kept for write-back is the successfully decoded sector, never made-up contents standing in for a failed read
+
+def run_fsinfo_provenance(ctx, rep):
+    facts = ctx.facts
+    NEW = 'fatfs::fs::FileSystem::new'
+    fn = facts.fns.get(NEW)
+    if fn is None:
+        rep.machinery('ANCHOR-MISSING ' + NEW)
+        return
+    reads = [b for b, t in fn.calls() if (t.get('callee') or '').endswith('FsInfoSector::deserialize')]
+    if not reads:
+        rep.machinery('ANCHOR-MISSING FsInfoSector::deserialize call in ' + NEW)
+        return
+    after = fn.reach_from(reads)
+    made_up = []
+    for bi in sorted(fn.reachable()):
+        t = fn.blocks[bi]['term']
+        if t['k'] == 'call' and not t['dest']['p']:
+            ty = fn.local_ty(t['dest']['l'])
+            if ty is not None and (ty.get('path') or '').endswith('::FsInfoSector') and \
+                    not (t.get('callee') or '').endswith('FsInfoSector::deserialize'):
+                made_up.append((bi, t['span']))
+        for s in fn.blocks[bi]['stmts']:
+            if s['k'] == 'assign' and s['rv']['k'] == 'agg' and (s['rv'].get('adt') or '').endswith('::FsInfoSector'):
+                made_up.append((bi, s['span']))
+    bad = [(bi, sp) for bi, sp in made_up if bi in after]
+    rep.oblige('R11.6', NEW, ok=not bad, nontrivial=True,
+               sample={'fn': NEW, 'fsinfo_reads': len(reads), 'constructed_elsewhere': len(made_up)})
+    if bad:
+        rep.violation('R11.6', vkey('R11.6', NEW, 'made-up-fsinfo', ''), fn.loc(bad[0][1]),
+                      'FileSystem::new can continue with FS-information contents it constructed itself after the sector was read '
+                      '(`%s`): unmount later writes 512 bytes at bpb.fs_info_sector although nothing verified that this sector '
+                      'is an FS-information sector (with BPB_FSInfo = 0 that is the boot sector)' % bad[0][1]['snip'][:70])
+
+
+_run_11c = run
+
+
+def run(ctx, rep):
+    _run_11c(ctx, rep)
+    run_fsinfo_provenance(ctx, rep)
